@@ -380,9 +380,40 @@ pub fn run(ctx: &Ctx) -> CheckOutput {
 			t.sample(5, || json!({"argv": argv, "stdin": stdin_name(*k), "stdout": format!("{out:?}"), "exit": o.exit.to_string()}));
 		}
 	});
-	let tally = Tally::merge_all(tallies);
+	let mut tally = Tally::merge_all(tallies);
+	// stdin that arrives in two bursts (second burst only once xt drained the first): a later burst that
+	// is malformed must still give exit 1 and name standard input; a good one exit 0 with every document
+	let streams: [(&str, &[u8], &[u8]); 6] = [
+		("yaml-good", b"a: 1\n---\nb: 2\n---\nc", b": 3\n---\nd: 4\n"),
+		("yaml-bad-tail", b"a: 1\n---\nb: 2\n---\nc", b": [3\n"),
+		("json-good", b"{\"a\":1}\n[2", b",3]\n\"x\"\n"),
+		("json-bad-tail", b"{\"a\":1}\n[2", b",,3]\n"),
+		("msgpack-bad-tail", b"\x81\xa1a\x01\x92\x02", b"\xc1"),
+		("toml-bad-tail", b"[t]\nx = 1 # c\ny = 2 # c\n", b"z = \n"),
+	];
+	for (name, first, second) in streams {
+		for args in [vec![], vec!["-tj"], vec!["-ty", "-"], vec!["good.json", "-"]] {
+			let mut sp = Spawn::new(&dir, &args);
+			sp.stdin = Stdin::Packets(vec![first.to_vec(), second.to_vec()]);
+			let o = proc::run(&sp);
+			tally.evaluations += 1;
+			tally.count("stdin:two-bursts");
+			let whole: Vec<u8> = [first, second].concat();
+			let to = parse_argv(&args).to.unwrap_or(F::Json);
+			let inputs: Vec<String> = args.iter().filter(|a| !a.starts_with("-t")).map(|s| s.to_string()).collect();
+			let lib = library_run(&dir, &inputs, None, to, &whole);
+			let good = match (&o.exit, lib.failed_at) {
+				(Exit::Code(0), None) => o.stdout == lib.bytes && o.stderr.is_empty(),
+				(Exit::Code(1), Some(_)) => o.stderr.starts_with(b"xt error") && String::from_utf8_lossy(&o.stderr).contains("standard input") && lib.bytes.starts_with(&o.stdout),
+				_ => false,
+			};
+			if !good {
+				tally.bad("bursty-stdin-wrong-status-or-output", json!({"kind": "bursty", "stream": name, "argv": args}), format!("xt {args:?} with stdin {name} delivered in two bursts: {} | library: failed_at={:?} bytes={}", o.brief(), lib.failed_at, show(&lib.bytes)));
+			}
+		}
+	}
 	let req = |k: &str| (k.to_string(), *tally.counters.get(k).unwrap_or(&0));
-	let required = vec![req("argv:invalid"), req("argv:help"), req("argv:valid"), req("stdout:Pipe"), req("stdout:File"), req("stdout:Pty"), req("stdout:DevFull")];
+	let required = vec![req("argv:invalid"), req("argv:help"), req("argv:valid"), req("stdout:Pipe"), req("stdout:File"), req("stdout:Pty"), req("stdout:DevFull"), req("stdin:two-bursts")];
 	CheckOutput {
 		level: "exploration",
 		tally,
